@@ -1503,8 +1503,8 @@ Qed.
 
 Lemma reach_op s o : reachable s -> reachable (exec_op s o).
 Proof.
-  intro R. destruct o; try (apply reach_op1; exact R).
-  cbn [exec_op]. apply reach_fold; [|exact R]. intros s0 x. apply reach_op1.
+  intro R. destruct o; try (apply reach_op1; exact R);
+    (cbn [exec_op]; apply reach_fold; [|exact R]; intros s0 x; apply reach_op1).
 Qed.
 
 Lemma exec_ops_reachable ops : exists tr, exec_ops ops = run tr.
